@@ -6,7 +6,7 @@ from .common import Exc
 from .oracle_env import env_for
 from .lru_common import call
 
-THEOREMS = ["C13_stem_prefix_is_string_prefix", "C13_clean_app", "C13_clean_idem",
+THEOREMS = ["C13_stem_prefix_is_string_prefix", "C13_clean_app", "C13_clean_idem", "C13_descendant_extends_stems",
             "(ancestor <=> LRU prefix: decided on all ordered pairs of the universe, both directions — partial)"]
 REGEXES = ["PORT_SPLITTER", "PROTOCOL_RE", "SPECIAL_HOSTS_RE"]
 
